@@ -304,6 +304,8 @@ def run(ctx):
     O_, H_ = w.element("O"), w.element("H")
     saved_public = I.module_cache.get(("core", "PUBLIC_TABLE"), _NOTSET)
     I.module_cache[("core", "PUBLIC_TABLE")] = w.table        # requests without table= go to the default table
+    from ptstat import symval as _sv9
+    _sv9.OPTIONS["unit_groups"] = True                        # only compositions and densities are compared, never nesting
     for text, tkw in (("Fe2O3@5.2", {"table": w.table}), ("30wt% Fe2O3@5 // H2O@1", {"table": w.table}), ("H2O", {"table": w.table}),
                       ("Fe2O3@5.2", {}), ("5g Fe2O3@5 // 50mL H2O@1", {})):
         fa = I.call(fm, [text], dict(tkw))
@@ -325,6 +327,7 @@ def run(ctx):
                   "the earlier result's += shows in a later reading of the same string", site, witness=text)
         ctx.check(I.getattr(fb, "name") != "edited", "R9", f"name of {text!r} read again after the first result was renamed",
                   "the earlier result's name shows in a later reading", site, witness=text)
+    _sv9.OPTIONS["unit_groups"] = False
     if saved_public is _NOTSET:
         I.module_cache.pop(("core", "PUBLIC_TABLE"), None)
     else:
